@@ -1,1 +1,8 @@
-import EoNVerif.Spec.Predicates
+import EoNVerif.Props.C04
+import EoNVerif.Props.C11
+import EoNVerif.Props.C13
+/-!
+C09 — transmissions: the theorem `Gillespie.tv_gillespie` (Pred.transmissionsValid holds of every output of the
+Gillespie_SIR/SIS model) is stated and proved in `Props/C04.lean`; `EventSIR.fpp_sound` (C11) and
+`EventSIS.trans_is_listed_attempt` (C13) are the corresponding statements for the event-driven simulators.
+-/
